@@ -101,7 +101,8 @@ fn classify(t: &Trap, r: Reg) -> Acc {
 }
 
 /// All trapped instructions since the last check must be accesses of `r`; the sequence of written
-/// values must equal `writes`; at least `min_reads` reads.
+/// values must equal `writes` (or be empty when the register already holds that value); at least
+/// `min_reads` reads.
 fn check_log(what: &str, r: Reg, writes: &[u64], min_reads: usize) -> CaseResult {
     let c = cpu();
     ensure!(!cpu().log_overflow, "{}: trap log overflow", what);
@@ -116,7 +117,11 @@ fn check_log(what: &str, r: Reg, writes: &[u64], min_reads: usize) -> CaseResult
             Acc::Other => return Err(format!("{}: accessed something other than {:x?}: {:x?} (log {:x?})", what, r, t, log)),
         }
     }
-    ensure!(got_w == writes, "{}: values written to {:x?}: got {:x?}, expected {:x?}", what, r, got_w, writes);
+    // A wrapper that has just read the register and finds that it already holds exactly the value it
+    // is about to store may skip the redundant store: the register then holds what the property says
+    // it must hold (no store happened, so `current(r)` is still the prior content).
+    let redundant_store_skipped = got_w.is_empty() && writes.len() == 1 && current(r) == writes[0];
+    ensure!(got_w == writes || redundant_store_skipped, "{}: values written to {:x?}: got {:x?}, expected {:x?}", what, r, got_w, writes);
     ensure!(reads >= min_reads, "{}: expected at least {} read(s) of {:x?}, log {:x?}", what, min_reads, r, log);
     Ok(())
 }
